@@ -76,6 +76,8 @@ def judge(prop, runs, oracle_fns, allow_results=("ok", "err"), expect_valid=True
             stats["candidate names that are not valid UTF-8"] += 1
         if any(v[0] == "symlink" and k[:len(w.export)] == tuple(w.export) for k, v in w.files.items()):
             stats["an export file that is a symbolic link"] += 1
+        if w.notes.get("upper_case_namesake"):
+            stats["an UPPER-case namesake of an export directory already present"] += 1
         if getattr(rr, "outside", None) is not None:
             stats["run under strace"] += 1
         bad = None
